@@ -14,6 +14,7 @@ mod c18;
 mod c12;
 mod c19;
 mod c16;
+mod c17;
 
 fn main() {
     std::panic::set_hook(Box::new(|_| {}));
@@ -60,6 +61,8 @@ fn main() {
         "c16-unit" => c16::unit(rest),
         "c16-replay" => c16::replay(rest),
         "c16-record" => c16::record(rest),
+        "c17-replay" => c17::replay(rest),
+        "c17-record" => c17::record(rest),
         x => {
             eprintln!("unknown subcommand {}", x);
             std::process::exit(2);
